@@ -1,4 +1,4 @@
 SPECIFICATION Spec
-CONSTANTS Seed = 1 MaxLev = 7 CounterInits = "all"
+CONSTANTS Seed = 1 MaxLev = 8 CounterInits = "all"
 INVARIANTS NoAbort PeakInRange CountersBinary Equivalent
 CHECK_DEADLOCK TRUE
